@@ -347,9 +347,9 @@ Proof.
     [reflexivity | reflexivity | intros a | intros n vs | intros n vs | intros l IH | intros l IH]; intros R W.
   - cbn. rewrite andb_true_r. exact W.
   - cbn [to_items]. apply pwfl_joini; [right; reflexivity|]. apply Forall_forall. intros p Hp. apply in_map_iff in Hp as (v & <- & _).
-    cbn. rewrite andb_true_r. apply ok_new_atom. exact W.
+    cbn. rewrite andb_true_r. apply ok_new_atom; [exact W | reflexivity].
   - cbn [to_items]. apply pwfl_joini; [left; reflexivity|]. apply Forall_forall. intros p Hp. apply in_map_iff in Hp as (v & <- & _).
-    cbn. rewrite andb_true_r. apply ok_new_atom. exact W.
+    cbn. rewrite andb_true_r. apply ok_new_atom; [exact W | reflexivity].
   - rewrite rnd_multi in R. pose proof (rnd_children l R) as RC. rewrite wf_multi in W. rewrite to_items_multi. apply pwfl_joini; [left; reflexivity|].
     clear R. induction IH as [|x l Hx _ IHl]; [constructor|]. inversion RC as [|? ? [_ Rx] Rl]; subst. cbn [forallb] in W. apply andb_prop in W as [Wx Wl].
     cbn [map]. constructor; [|first [exact (IHl Rl Wl) | exact (IHl Wl Rl)]]. specialize (Hx Rx Wx). destruct x; cbn [multi_part]; try exact Hx; cbn; fold pwfl; rewrite andb_true_r; exact Hx.
